@@ -10,6 +10,7 @@ import (
 	"testing/synctest"
 	"time"
 
+	"github.com/0xReLogic/Helios/internal/config"
 	"github.com/0xReLogic/Helios/internal/loadbalancer"
 	"github.com/0xReLogic/Helios/verifharness/lab"
 	"pgregory.net/rapid"
@@ -57,6 +58,12 @@ type phCase struct {
 	TimeoutS     int      `json:"timeout_s,omitempty"`
 	Probe        []string `json:"probe,omitempty"` // ok | held
 	Ops          []phOp   `json:"ops"`             // a final sequential lb.Stop() is always appended
+	// optional features of the configuration, drawn on/off (values of the shipped sample file). Rate
+	// limiting is only drawn without active probing: the limiter owns a never-ending janitor goroutine,
+	// so that balancer is built outside the bubble, where a probe checker cannot live.
+	Rate    bool `json:"rate_limit,omitempty"`
+	Breaker bool `json:"circuit_breaker,omitempty"`
+	Passive bool `json:"passive_checks,omitempty"`
 }
 
 func genTraffic(rt *rapid.T, n int) phOp {
@@ -94,6 +101,11 @@ func genPoolHistory(rt *rapid.T) phCase {
 		for i := 0; i < c.N; i++ {
 			c.Probe = append(c.Probe, rapid.SampledFrom([]string{"ok", "ok", "held"}).Draw(rt, "probe"))
 		}
+	}
+	c.Breaker = rapid.Bool().Draw(rt, "circuit_breaker")
+	c.Passive = rapid.Bool().Draw(rt, "passive_checks")
+	if !c.Active {
+		c.Rate = rapid.Bool().Draw(rt, "rate_limit")
 	}
 	idleMs := c.IdleTimeoutS * 1000
 	if idleMs == 0 {
@@ -166,12 +178,10 @@ type phTraffic struct {
 	done     atomic.Bool
 }
 
-func (c phCase) inBubble(fn *lab.FakeNet, r *phResult) {
-	const eps = time.Millisecond
-	to := time.Second
+// config renders the case's configuration.
+func (c phCase) config() *config.Config {
 	cfg := lab.BaseConfig("round_robin", lab.Ones(c.N))
 	if c.Active {
-		to = time.Duration(c.TimeoutS) * time.Second
 		cfg.HealthChecks.Active.Enabled = true
 		cfg.HealthChecks.Active.Interval, cfg.HealthChecks.Active.Timeout, cfg.HealthChecks.Active.Path = c.IntervalS, c.TimeoutS, "/healthz"
 	}
@@ -179,6 +189,27 @@ func (c phCase) inBubble(fn *lab.FakeNet, r *phResult) {
 	cfg.LoadBalancer.WebSocketPool.MaxIdle = c.MaxIdle
 	cfg.LoadBalancer.WebSocketPool.MaxActive = 100
 	cfg.LoadBalancer.WebSocketPool.IdleTimeoutSeconds = c.IdleTimeoutS
+	if c.Rate {
+		cfg.RateLimit.Enabled, cfg.RateLimit.MaxTokens, cfg.RateLimit.RefillRate = true, 100, 1
+	}
+	if c.Breaker {
+		cfg.CircuitBreaker = config.CircuitBreakerConfig{Enabled: true, MaxRequests: 5, IntervalSeconds: 60, TimeoutSeconds: 60, FailureThreshold: 5, SuccessThreshold: 2}
+	}
+	if c.Passive {
+		cfg.HealthChecks.Passive.Enabled, cfg.HealthChecks.Passive.UnhealthyThreshold, cfg.HealthChecks.Passive.UnhealthyTimeout = true, 3, 30
+	}
+	return cfg
+}
+
+// inBubble plays the history. pre: the balancer, if it had to be built outside the bubble (rate
+// limiting on, no active probing); nil = built here.
+func (c phCase) inBubble(fn *lab.FakeNet, r *phResult, pre *loadbalancer.LoadBalancer) {
+	const eps = time.Millisecond
+	to := time.Second
+	cfg := c.config()
+	if c.Active {
+		to = time.Duration(c.TimeoutS) * time.Second
+	}
 	if err := cfg.Validate(); err != nil {
 		r.Harness = "config rejected: " + err.Error()
 		return
@@ -191,10 +222,13 @@ func (c phCase) inBubble(fn *lab.FakeNet, r *phResult) {
 		fn.SetProbeBehaviour(lab.BackendHost(i), b)
 	}
 	t0 := time.Now()
-	lb, err := loadbalancer.NewLoadBalancer(cfg)
-	if err != nil {
-		r.Harness = err.Error()
-		return
+	lb := pre
+	if lb == nil {
+		var err error
+		if lb, err = loadbalancer.NewLoadBalancer(cfg); err != nil {
+			r.Harness = err.Error()
+			return
+		}
 	}
 	fn.Install(lb)
 	defer func() {
@@ -457,7 +491,7 @@ func (c phCase) inBubble(fn *lab.FakeNet, r *phResult) {
 
 func TestC19StopPoolHistories(t *testing.T) {
 	const name = "stop-pool-history"
-	sub := lab.Sub(name, "rapid histories in virtual time against the real balancer with websocket_pool enabled (1-3 backends, max_idle unset/1-4, idle_timeout unset/1 s/5 s/60 s/1 h, active probing off or on with probes answered or held): 3-24 operations over "+
+	sub := lab.Sub(name, "rapid histories in virtual time against the real balancer with websocket_pool enabled (1-3 backends, max_idle unset/1-4, idle_timeout unset/1 s/5 s/60 s/1 h, active probing off or on with probes answered or held; circuit breaker and passive checks on or off by draw, rate limiting on or off by draw when active probing is off - that balancer is built outside the bubble because of the limiter's janitor): 3-24 operations over "+
 		"{Put of a fresh fake connection, Get, Put back / Close of a connection obtained from Get, virtual time passes (1 ms .. idle timeout +-1 ms .. past the janitor tick), janitor pass, shutdown call} where a shutdown call is 1-3 concurrent calls of lb.Stop() or pool.Shutdown(), optionally with 1-3 pool operations (Put fresh, Get, Put back) issued concurrently; a final lb.Stop() ends every history; "+
 		"oracle after EVERY shutdown call (group) has returned: each connection that was idle in the pool when it was issued (Put accepted, not handed out since, not handed out by a concurrent Get) reports closed, Stats reports no idle connection beyond the Puts accepted concurrently with the call, no call panics, every call returns (within one probe timeout of virtual time when probing is on); "+
 		"non-trivial = a repeat shutdown call (not the first of the history) is issued while at least one open connection is idle in the pool")
@@ -465,6 +499,9 @@ func TestC19StopPoolHistories(t *testing.T) {
 	sub.Floor("returned-between-stops", 0.15)
 	sub.Floor("stop-with-concurrent-traffic", 0.25)
 	sub.Floor("concurrent-stops", 0.25)
+	sub.Floor("on=rate_limit", 0.20)
+	sub.Floor("on=circuit_breaker", 0.35)
+	sub.Floor("on=passive_checks", 0.35)
 	lab.Assume("stop-pool-history: the websocket pool is not wired into the proxy path, so 'a tunnel checks a connection out and returns it when its session ends' is played through the pool's exported Get/Put/Close with counting fake net.Conns; nothing is claimed about what Put/Get do after a shutdown, only that every shutdown call closes what is idle in the pool when it is issued")
 	lab.Check(t, sub, 8000, 120000, func(rt *rapid.T) {
 		c := genPoolHistory(rt)
@@ -472,13 +509,36 @@ func TestC19StopPoolHistories(t *testing.T) {
 		wd := lab.StartWatchdog(t.Name(), name, lab.NoProgress, func() any { return map[string]any{"case": c} })
 		fn := lab.NewFakeNet()
 		var panicked any
+		var pre *loadbalancer.LoadBalancer
+		if c.Rate && !c.Active {
+			// the limiter's janitor never ends: this balancer is built outside the bubble
+			var err error
+			if pre, err = loadbalancer.NewLoadBalancer(c.config()); err != nil {
+				wd.Stop()
+				rt.Fatalf("harness: %v (case %+v)", err, c)
+			}
+		}
 		fn.WithDefaultTransport(func() {
-			r.Deadlock, panicked = runBubble(t, func() { c.inBubble(fn, &r) })
+			r.Deadlock, panicked = runBubble(t, func() { c.inBubble(fn, &r, pre) })
 		})
+		if pre != nil {
+			func() {
+				defer func() { _ = recover() }() // a panicking Stop has been reported from inside the history
+				pre.Stop()
+			}()
+		}
 		wd.Stop()
 		labels := []string{fmt.Sprintf("n=%d", c.N), fmt.Sprintf("max_idle=%d", c.MaxIdle), fmt.Sprintf("idle_timeout=%ds", c.IdleTimeoutS), fmt.Sprintf("stop-groups=%d", min(r.StopGroups, 6))}
 		if c.Active {
 			labels = append(labels, "active-probing")
+		}
+		for _, f := range []struct {
+			on   bool
+			name string
+		}{{c.Rate, "rate_limit"}, {c.Breaker, "circuit_breaker"}, {c.Passive, "passive_checks"}} {
+			if f.on {
+				labels = append(labels, "on="+f.name)
+			}
 		}
 		if r.OpenAtRepeat > 0 {
 			labels = append(labels, "open-idle-at-repeat-stop")
